@@ -149,13 +149,18 @@ def rule_vetting(repo, rep):
       if isinstance(v, ast.Constant):
         continue
       names = [x.id for x in ast.walk(v) if isinstance(x, ast.Name)]
-      if 'isfinite' in txt and Mname in names and txt.startswith('not '):
+      if Mname and txt in ('not np.isfinite(%s).all()' % Mname,
+                           'not np.all(np.isfinite(%s))' % Mname,
+                           'np.any(~np.isfinite(%s))' % Mname,
+                           '(~np.isfinite(%s)).any()' % Mname,
+                           'not bool(np.isfinite(%s).all())' % Mname):
         fin_ok = True
       for nm in names:
         for src in defs.get(nm, []):
           pass
-      if ('< 0' in txt or '<= 0' in txt) and ('any(' in txt or '.any()' in txt
-                                              or 'min(' in txt):
+      if (txt.startswith('any(') or txt.startswith('np.any(') or
+              txt.endswith('.any()') or 'min(' in txt or '.min()' in txt) and \
+              ('< 0' in txt or '<= 0' in txt) and 'all(' not in txt:
         # the compared vector must be the spectrum of M
         for nm in names:
           for n2 in ast.walk(f.node):
